@@ -35,7 +35,7 @@ TRUSTED = [
     "C12 modes: the harness predicts what a oneshot() block has cached from the warm-up calls it made itself (which front-end methods read stat / status is listed in STAT_READERS / STATUS_READERS); ppid()/is_running() are only run while /proc/<pid> exists (their `_gone` memory is C01/C02's subject); as_dict(attrs=[call, extras]) uses extras that cannot raise NoSuchProcess while /proc/<pid> exists",
 ]
 MANIFEST = {
-    "level_text": "Machine-checked Lean 4 proofs over a model of _pslinux.Process.cmdline/environ/exe/cwd (+ readlink, _readlink, wrap_exceptions), _common.parse_environ_block and the front ends psutil.Process.exe()/name()/username()/terminal(): for EVERY byte string / world, the model equals a byte-level specification written from the property statement (C12_cmdline_spec, C12_environ_spec, C12_file_errors for OS errors on the files themselves, C12_link_cleanup, C12_link_withheld, C12_exe_fallback, C12_exe_refines over all call histories incl. memoisation, one closed-form theorem per documented branch of exe(): C12_exe_native / _native_error / _denied / _withheld / _eacces_link, C12_name_rule, C12_name_when_cmdline_raises and C12_name_zombie_or_denied (a zombie or a process with an unreadable cmdline keeps the kernel's name; NoSuchProcess propagates), C12_cwd_exe_zombie, C12_zombie_identity (a zombie still has an owner and a terminal), C12_call_refines), plus kernel-layout round-trips for every argv without NUL (C12_cmdline_roundtrip, under the stated hypothesis about a single space-containing argument, with the counterexample showing the hypothesis is needed) and every environment (C12_environ_roundtrip), C12_oneshot_same_answers (inside oneshot() every call answers as outside for the world 'block-cached stat/status as first read, everything else as now'), and proved counterexamples for the two defects re-found (name() testing code points instead of bytes; open_text translating CR). Characterisations of what is returned for files a rewritten title leaves behind (C12_cmdline_setproctitle: from the memory layout of the nginx/sshd/postgres way of writing a title through the kernel's get_mm_cmdline rule to the returned list; C12_cmdline_padded_title: title + k+2 NULs = the title unsplit + k+1 empty strings; C12_cmdline_title_leftover; C12_cmdline_unterminated: a file cut by a one-page kernel is read as a space-separated title with the NULs inside the strings) and for environment blocks (C12_environ_unterminated_tail: a block cut at 4096 bytes loses exactly the cut entry; C12_environ_not_assignment_ignored: 'B', '=x'; C12_environ_any_value: newlines etc.; C12_environ_duplicates). Tied to the code by translator facts (all separator literals, ' (deleted)', 10, 15, bytes-vs-str test in name(), newline mode of open_text, and the except clauses of name() around cmdline() and of exe() around _proc.exe() / guess_it() in source order with what their bodies do, read with Python's first-matching-clause and subclass rules: cfg_except_clauses, C12_except_clause_order_matters) feeding the proof obligation cfg_good, and by a differential run of the real methods over a fake procfs in which every call is made in one of ten call modes (plain, oneshot, nested, warm block cache filled in an earlier world, after a block, as_dict with one/many attrs, as_dict inside oneshot, twice, re-fetched from process_iter) on objects from the constructor, process_iter() and process_iter(attrs=...).",
+    "level_text": "Machine-checked Lean 4 proofs over a model of _pslinux.Process.cmdline/environ/exe/cwd (+ readlink, _readlink, wrap_exceptions), _common.parse_environ_block and the front ends psutil.Process.exe()/name()/username()/terminal(): for EVERY byte string / world, the model equals a byte-level specification written from the property statement (C12_cmdline_spec, C12_environ_spec, C12_file_errors for OS errors on the files themselves, C12_link_cleanup, C12_link_withheld, C12_exe_fallback, C12_exe_refines over all call histories incl. memoisation, one closed-form theorem per documented branch of exe(): C12_exe_native / _native_error / _denied / _withheld / _eacces_link, C12_name_rule, C12_name_when_cmdline_raises and C12_name_zombie_or_denied (a zombie or a process with an unreadable cmdline keeps the kernel's name; NoSuchProcess propagates), C12_cwd_exe_zombie, C12_zombie_identity (a zombie still has an owner and a terminal), C12_call_refines), plus kernel-layout round-trips for every argv without NUL (C12_cmdline_roundtrip, under the stated hypothesis about a single space-containing argument, with the counterexample showing the hypothesis is needed) and every environment (C12_environ_roundtrip), C12_oneshot_same_answers (inside oneshot() every call answers as outside for the world 'block-cached stat/status as first read, everything else as now'), and proved counterexamples for the two defects re-found (name() testing code points instead of bytes; open_text translating CR). Characterisations of what is returned for files a rewritten title leaves behind (C12_cmdline_setproctitle: from the memory layout of the nginx/sshd/postgres way of writing a title through the kernel's get_mm_cmdline rule to the returned list; C12_cmdline_padded_title: title + k+2 NULs = the title unsplit + k+1 empty strings; C12_cmdline_title_leftover; C12_cmdline_unterminated: a file cut by a one-page kernel is read as a space-separated title with the NULs inside the strings) and for environment blocks (C12_environ_unterminated_tail: a block cut at 4096 bytes loses exactly the cut entry; C12_environ_not_assignment_ignored: 'B', '=x'; C12_environ_any_value: newlines etc.; C12_environ_duplicates). Tied to the code by translator facts (all separator literals, the 'exactly one trailing separator is removed' shape of cmdline() with the proved counterexample C12_cmdline_strip_one_needed for rstrip, ' (deleted)', 10, 15, bytes-vs-str test in name(), newline mode of open_text, and the except clauses of name() around cmdline() and of exe() around _proc.exe() / guess_it() in source order with what their bodies do, read with Python's first-matching-clause and subclass rules: cfg_except_clauses, C12_except_clause_order_matters) feeding the proof obligation cfg_good, and by a differential run of the real methods over a fake procfs in which every call is made in one of ten call modes (plain, oneshot, nested, warm block cache filled in an earlier world, after a block, as_dict with one/many attrs, as_dict inside oneshot, twice, re-fetched from process_iter) on objects from the constructor, process_iter() and process_iter(attrs=...).",
     "level_note": "Trusted: Lean kernel + {propext, Classical.choice, Quot.sound}; the translator; the correspondence harness; str<->bytes bijection under PYTHONUTF8=1; stat/status parsing (C06) enters as comm/zombie/tty_nr/real uid; the user database and the terminal map are parameters; ENOENT on the cmdline/environ file of a live process whose /proc/<pid> exists and a denied existence test are outside the statement (model-vs-code only); a cached source outliving /proc/<pid> inside a block is C16's; a single argument containing a space is indistinguishable from a rewritten title in the bytes the kernel exposes (hypothesis of the round-trip).",
     "technique": "Lean 4 case analysis and list induction (model = byte-level spec for all inputs; renderer round-trips; history refinement for the exe() memo; block-view lemma for oneshot) + translator-fed proof obligation + differential correspondence on a fake procfs across call modes and object sources, with exhaustive sweeps around the 15-byte name boundary, over the branches of exe(), over modes x calls x objects, and over ALL environ files on {A,=,NUL,LF} up to 7 bytes and ALL cmdline files on {a,SP,NUL} up to 8 bytes; cmdline files of the random families also come from a simulator of the kernel's get_mm_cmdline / one-page proc_pid_cmdline applied to real setproctitle memory layouts (checked against Spec.kernelCmdline on every run)",
     "design_ref": "DESIGN.md §5 C12",
@@ -82,7 +82,20 @@ def _cmdline_facts(tree):
                 if len(sp) != 1 or len(sp[0].args) != 1:
                     raise NotRecognised("rule-2 split not recognised")
                 out["r2split"] = _one_char(sp[0].args[0], "rule-2 split")
-    if set(out) != {"test", "nul", "space", "r2sep", "r2in", "r2split"}:
+        # how trailing separators are removed, between choosing `sep` and splitting
+        if isinstance(n, ast.If) and isinstance(n.test, ast.Call) and extract.dotted(n.test.func) == "data.endswith" \
+                and len(n.test.args) == 1 and extract.dotted(n.test.args[0]) == "sep":
+            if not n.orelse and len(n.body) == 1 and extract.unparse(n.body[0]) == "data = data[:-1]":
+                out["strip1"] = True
+            else:
+                raise NotRecognised("trailing-separator removal is %s" % extract.unparse(n)[:80])
+        if isinstance(n, ast.Assign) and extract.unparse(n) in ("data = data.rstrip(sep)", "data = data.strip(sep)"):
+            if extract.unparse(n) != "data = data.rstrip(sep)":
+                raise NotRecognised("trailing-separator removal is %s" % extract.unparse(n))
+            out["strip1"] = False
+    if "strip1" not in out:
+        raise NotRecognised("cmdline(): no trailing-separator removal found")
+    if set(out) != {"test", "nul", "space", "r2sep", "r2in", "r2split", "strip1"}:
         raise NotRecognised("cmdline(): shape not recognised (%s)" % sorted(out))
     return out
 
@@ -327,6 +340,9 @@ def facts(snap, F):
               "cmdline(): `... in data` in the single-piece rule")
     F.try_add("cmdlineRule2Split", "Nat", lambda: nat(get("c", _cmdline_facts, linux)["r2split"]),
               "cmdline(): `data.split(...)` in the single-piece rule")
+    F.try_add("cmdlineStripsOneSep", "Bool", lambda: extract.lean_bool(get("c", _cmdline_facts, linux)["strip1"]),
+              "cmdline(): exactly one trailing separator is removed (`if data.endswith(sep): data = data[:-1]`: true) "
+              "or all of them (`data = data.rstrip(sep)`: false)")
     F.try_add("environNul", "Nat", lambda: nat(get("e", _environ_facts, common)["nul"]),
               "parse_environ_block: the entry terminator searched from `pos`")
     F.try_add("environEq", "Nat", lambda: nat(get("e", _environ_facts, common)["eq"]),
